@@ -612,6 +612,23 @@ func c04Gate(c *Ctx, sx *symx.Ctx, g *gateInfo) {
 	}
 	// every way to return true is legit
 	bad := ""
+	// a verdict kept in a variable (inForce := ...; if inForce { return true }):
+	// the test of the variable is a legit edge when every way it can be true is
+	isCls := func(call *ssa.Call) bool {
+		for _, cl := range classes {
+			if cl.call == call {
+				return true
+			}
+		}
+		return false
+	}
+	for round := 0; round < 2; round++ {
+		for _, iff := range ssau.Ifs(fn) {
+			if phi, ok := iff.Cond.(*ssa.Phi); ok && c04TrueOnlyLegit(phi, 0, isCls, legit) {
+				legit[[2]int{iff.Block().Index, 0}] = true
+			}
+		}
+	}
 	reach := reachableFromEntry(fn, legit)
 	for _, ret := range ssau.ReturnsOf(fn) {
 		if !reach[ret.Block()] {
@@ -1345,4 +1362,47 @@ func c04InForceAssembled(c *Ctx, srcs []ssa.Value) (hostOK, reqOK, ok bool) {
 		}
 	}
 	return hostOK, reqOK, true
+}
+
+// c04TrueOnlyLegit: the boolean v can be true only as a classifier's own
+// verdict, or as the constant true arriving over an edge already known to be
+// legitimate (merges of such).
+func c04TrueOnlyLegit(v ssa.Value, d int, isCls func(*ssa.Call) bool, legit map[[2]int]bool) bool {
+	if ssau.IsConstBool(v, false) {
+		return true
+	}
+	if call, ok := v.(*ssa.Call); ok {
+		return isCls(call)
+	}
+	if phi, ok := v.(*ssa.Phi); ok && d < 4 {
+		for i, e := range phi.Edges {
+			if ssau.IsConstBool(e, true) {
+				p := phi.Block().Preds[i]
+				via := false
+				for k, sc := range p.Succs {
+					if sc == phi.Block() && legit[[2]int{p.Index, k}] {
+						via = true
+					}
+				}
+				// or the block that sets it is itself reached only over a legit edge
+				if !via && len(p.Preds) == 1 {
+					pp := p.Preds[0]
+					for k, sc := range pp.Succs {
+						if sc == p && legit[[2]int{pp.Index, k}] {
+							via = true
+						}
+					}
+				}
+				if !via {
+					return false
+				}
+				continue
+			}
+			if !c04TrueOnlyLegit(e, d+1, isCls, legit) {
+				return false
+			}
+		}
+		return len(phi.Edges) > 0
+	}
+	return false
 }
